@@ -43,6 +43,8 @@ _SIMPLE = {
     "Storage": "Storage",
     "Query": "Q",
     "Measurement": "Unit",
+    "IndexResult": "IndexResult",
+    "QueryObj": "QueryObj",
 }
 
 
@@ -54,6 +56,8 @@ def parse_type(a):
         raise Unsupported(f"type {a.id}")
     if isinstance(a, ast.Constant) and a.value is None:
         return "Unit"
+    if isinstance(a, ast.Constant) and isinstance(a.value, str) and a.value in _SIMPLE:
+        return _SIMPLE[a.value]        # a forward reference: "IndexResult"
     if isinstance(a, ast.Subscript) and isinstance(a.value, ast.Name):
         h = a.value.id
         args = a.slice.elts if isinstance(a.slice, ast.Tuple) else [a.slice]
@@ -187,6 +191,14 @@ def may_exit(stmts):
 _POINT_ATTR = {"measurement": "meas", "tags": "tags", "fields": "fields"}
 
 
+_LEAN_WORDS = {"match", "fun", "at", "from", "have", "show", "open", "end", "with", "by", "where", "calc", "mut", "then"}
+
+
+def nm(name):
+    """a Python identifier that is a Lean keyword gets a trailing underscore"""
+    return name + "_" if name in _LEAN_WORDS else name
+
+
 class Fn:
     """translation state of one method"""
 
@@ -222,9 +234,30 @@ class Fn:
                 return "IndexResult"
         if isinstance(e, ast.Attribute) and self.ty(e.value) == "IndexResult" and e.attr in ("_items", "items"):
             return ("List", "Nat")
+        if isinstance(e, ast.Attribute) and isinstance(e.value, ast.Name) and e.value.id == "operator":
+            return "BoolOperator" if e.attr.endswith("_") else "Operator"
+        if isinstance(e, ast.Attribute) and isinstance(e.value, ast.Name) and e.value.id in self.unpacked:
+            return {"operator": "BoolOperator", "query1": "QueryObj", "query2": "QueryObj"}.get(e.attr)
+        if isinstance(e, ast.Call) and isinstance(e.func, ast.Attribute) and _is_self_attr(e.func) and e.func.attr == "_search_helper":
+            return "IndexResult"
+        if isinstance(e, ast.Call) and isinstance(e.func, ast.Name) and e.func.id == "IndexResult":
+            return "IndexResult"
+        if isinstance(e, ast.Attribute) and isinstance(e.value, ast.Name) and self.env.get(e.value.id) == "SimpleQuery":
+            return {"_operator": "Operator", "_rhs": "Rhs"}.get(e.attr)
+        if isinstance(e, ast.IfExp) and isinstance(e.orelse, ast.Constant) and e.orelse.value is None:
+            t = self.ty(e.body)
+            return t if (isinstance(t, tuple) and t[0] == "Option") or t is None else ("Option", t)
+        if isinstance(e, ast.Call) and isinstance(e.func, ast.Name) and e.func.id in ("find_eq", "find_lt", "find_le", "find_gt", "find_ge"):
+            return ("Option", "Nat")
+        if isinstance(e, ast.Call) and isinstance(e.func, ast.Attribute) and e.func.attr == "timestamp":
+            return "Int"
         if isinstance(e, ast.Compare) and len(e.ops) == 1 and isinstance(e.ops[0], ast.Eq) and isinstance(e.left, ast.Call) \
                 and isinstance(e.left.func, ast.Name) and e.left.func.id == "MeasurementQuery":
             return "Q"
+        if isinstance(e, ast.BinOp) and isinstance(e.op, (ast.BitAnd, ast.BitOr)) and self.ty(e.left) == "IndexResult":
+            return "IndexResult"
+        if isinstance(e, ast.UnaryOp) and isinstance(e.op, ast.Invert) and self.ty(e.operand) == "IndexResult":
+            return "IndexResult"
         if isinstance(e, ast.BinOp) and isinstance(e.op, ast.BitAnd) and self.ty(e.left) == "Q":
             return "Q"
         if isinstance(e, ast.Call) and isinstance(e.func, ast.Attribute) and not e.args:
@@ -253,6 +286,8 @@ class Fn:
 
     def iter_of(self, e):
         """Lean text of the list a `for` / comprehension runs over: iterating a dict yields its keys"""
+        if isinstance(e, ast.Name) and e.id == "__range__":
+            return self.range_iter
         t = self.ty(e)
         if isinstance(t, tuple) and t[0] == "AL":
             return f"(keys {self.atom(e)})"
@@ -261,6 +296,9 @@ class Fn:
         return self.atom(e)
 
     def bind_target(self, target, it):
+        if isinstance(it, ast.Name) and it.id == "__range__":
+            self.env[target.id] = "Nat"
+            return
         et = elem_type(self.ty(it))
         if isinstance(target, ast.Name):
             self.env[target.id] = et
@@ -272,7 +310,7 @@ class Fn:
     # --- expressions: Lean text usable inside a `do` block (may contain `(← ...)`)
     def ex(self, e):
         if isinstance(e, ast.Name):
-            return e.id
+            return nm(e.id)
         if isinstance(e, ast.Constant):
             if e.value is None:
                 return "none"
@@ -280,12 +318,26 @@ class Fn:
                 return "true" if e.value else "false"
             if isinstance(e.value, int) and e.value >= 0:
                 return str(e.value)
+            if isinstance(e.value, str) and e.value.isidentifier():
+                return '"' + e.value + '"'
             raise Unsupported("constant " + repr(e.value))
         if isinstance(e, ast.Attribute):
             if _is_self_attr(e):
                 if e.attr not in self.cls.attrs:
                     raise Unsupported("attribute self." + e.attr)
                 return f"self.{e.attr}"
+            if isinstance(e.value, ast.Name) and e.value.id == "operator" and e.attr in ("eq", "ne", "lt", "le", "gt", "ge"):
+                return f"Operator.{e.attr}"
+            if isinstance(e.value, ast.Name) and e.value.id == "operator" and e.attr in ("and_", "or_", "not_"):
+                return f"BoolOperator.{e.attr}"
+            if isinstance(e.value, ast.Name) and e.value.id in self.unpacked and e.attr in ("operator", "query1", "query2"):
+                return {"operator": "operator_", "query1": "query1", "query2": "query2"}[e.attr]
+            if isinstance(e.value, ast.Name) and self.env.get(e.value.id) == "SimpleQuery" and e.attr in ("point_attr", "_point_attr"):
+                return f"{e.value.id}._point_attr"
+            if isinstance(e.value, ast.Name) and self.env.get(e.value.id) == "SimpleQuery" and e.attr in ("_operator", "_rhs"):
+                return f"{e.value.id}.{e.attr}"
+            if self.ty(e.value) == "Rhs" and e.attr == "tzinfo":
+                return f"(Rhs.tzinfo {self.atom(e.value)})"
             if self.ty(e.value) == "IndexImpl.Self" and e.attr == "valid":
                 return f"(← IndexImpl.valid {self.atom(e.value)})"
             if self.ty(e.value) == "IndexResult" and e.attr in ("_items", "items"):
@@ -318,6 +370,11 @@ class Fn:
             if isinstance(e.slice, ast.Constant) and e.slice.value in (0, 1) and isinstance(e.value, ast.Name):
                 return f"(item{e.slice.value} {e.value.id})"
             return f"(← getItem {self.atom(e.value)} {self.atom(e.slice)})"
+        if isinstance(e, ast.BinOp) and isinstance(e.op, (ast.BitAnd, ast.BitOr)) and self.ty(e.left) == "IndexResult":
+            m = "__and__" if isinstance(e.op, ast.BitAnd) else "__or__"
+            return f"(← IndexResultImpl.{m} {self.atom(e.left)} {self.atom(e.right)})"
+        if isinstance(e, ast.UnaryOp) and isinstance(e.op, ast.Invert) and self.ty(e.operand) == "IndexResult":
+            return f"(← IndexResultImpl.__invert__ {self.atom(e.operand)})"
         if isinstance(e, ast.BinOp) and isinstance(e.op, ast.BitAnd) and self.ty(e.left) == "Q":
             return f"(ext.qand {self.atom(e.left)} {self.atom(e.right)})"
         if isinstance(e, ast.Compare) and self.ty(e) == "Q":
@@ -330,6 +387,13 @@ class Fn:
             raise Unsupported("operator " + ast.dump(e.op))
         if isinstance(e, (ast.BoolOp, ast.Compare)) or (isinstance(e, ast.UnaryOp) and isinstance(e.op, ast.Not)):
             return self.cond(e)
+        if isinstance(e, ast.IfExp) and isinstance(e.orelse, ast.Constant) and e.orelse.value is None:
+            b = self.ex(e.body)
+            if "←" in b:
+                raise Unsupported("conditional expression with a raising branch and None")
+            tb = self.ty(e.body)
+            wrapped = b if (isinstance(tb, tuple) and tb[0] == "Option") else f"some {self.atom(e.body)}"
+            return f"(if {self.cond(e.test)} then {wrapped} else none)"
         if isinstance(e, ast.IfExp):
             return f"(← (if {self.cond(e.test)} then {self.exdo(e.body)} else {self.exdo(e.orelse)}))"
         if isinstance(e, ast.ListComp):
@@ -370,9 +434,9 @@ class Fn:
 
     def pat(self, t):
         if isinstance(t, ast.Name):
-            return t.id
+            return nm(t.id)
         if isinstance(t, ast.Tuple) and all(isinstance(x, ast.Name) for x in t.elts):
-            return "(" + ", ".join(x.id for x in t.elts) + ")"
+            return "(" + ", ".join(nm(x.id) for x in t.elts) + ")"
         raise Unsupported("loop target " + ast.dump(t))
 
     def listcomp(self, e):
@@ -394,6 +458,14 @@ class Fn:
 
     # --- conditions: Lean text of type Bool
     def cond(self, e):
+        if (isinstance(e, ast.BoolOp) and isinstance(e.op, ast.And) and len(e.values) == 2 and isinstance(e.values[0], ast.Call)
+                and isinstance(e.values[0].func, ast.Name) and e.values[0].func.id == "isinstance"
+                and isinstance(e.values[0].args[1], ast.Name) and e.values[0].args[1].id == "SimpleQuery"
+                and self.ty(e.values[0].args[0]) == "QueryObj" and isinstance(e.values[1], ast.Compare)
+                and isinstance(e.values[1].left, ast.Attribute) and e.values[1].left.attr in ("_point_attr", "point_attr")
+                and ast.dump(e.values[1].left.value) == ast.dump(e.values[0].args[0]) and isinstance(e.values[1].ops[0], ast.Eq)):
+            # isinstance(x, SimpleQuery) and x._point_attr == "…"
+            return f"(QueryObj.isSimpleWithAttr {self.atom(e.values[0].args[0])} {self.ex(e.values[1].comparators[0])})"
         if isinstance(e, ast.UnaryOp) and isinstance(e.op, ast.Not):
             return f"(!{self.cond(e.operand)})"
         if isinstance(e, ast.BoolOp):
@@ -406,6 +478,9 @@ class Fn:
             if len(e.ops) != 1:
                 raise Unsupported("chained comparison")
             a, b, op = e.left, e.comparators[0], e.ops[0]
+            if (isinstance(op, ast.Eq) and isinstance(a, ast.Attribute) and a.attr == "_hash" and isinstance(a.value, ast.Name)
+                    and self.env.get(a.value.id) == "SimpleQuery" and isinstance(b, ast.Tuple) and not b.elts):
+                return f"{a.value.id}.hash_is_empty"          # `query._hash == ()`: a `noop()` query
             if isinstance(op, (ast.Is, ast.IsNot)):
                 if not (isinstance(b, ast.Constant) and b.value is None):
                     raise Unsupported("is")
@@ -453,6 +528,15 @@ class Fn:
                 return f"(List.zip {self.atom(e.args[0])} {self.atom(e.args[1])})"
             if n == "enumerate" and len(e.args) == 1 and not kw:
                 return f"(enumerate {self.iter_of(e.args[0])})"
+            if n in ("find_eq", "find_lt", "find_le", "find_gt", "find_ge") and len(e.args) == 2 and not kw:
+                return f"(← findIn TinyFlux.Generated.{n} {self.atom(e.args[0])} {self.atom(e.args[1])})"
+            if n == "isinstance" and len(e.args) == 2 and not kw and isinstance(e.args[1], ast.Name) and e.args[1].id == "datetime" \
+                    and self.ty(e.args[0]) == "Rhs":
+                return f"(Rhs.isDatetime {self.atom(e.args[0])})"
+            if n == "IndexResult" and len(e.args) == 2 and not kw:
+                return f"({{ _items := {self.ex(e.args[0])}, _index_count := {self.ex(e.args[1])} }} : IndexResult)"
+            if n == "IndexResult" and not e.args and set(kw) == {"items", "index_count"}:
+                return f"({{ _items := {self.ex(kw['items'])}, _index_count := {self.ex(kw['index_count'])} }} : IndexResult)"
             if n == "index_is_exact" and len(e.args) == 1 and not kw:
                 return f"(ext.index_is_exact {self.atom(e.args[0])})"
             if self.env.get(n) == "Q" and len(e.args) == 1 and not kw:
@@ -469,8 +553,15 @@ class Fn:
             if f.attr in ("intersection", "union", "difference") and len(args) == 1:
                 name = {"intersection": "setInter", "union": "setUnion", "difference": "setDiff"}[f.attr]
                 return f"({name} {self.atom(recv)} {self.atom(args[0])})"
+            if f.attr == "timestamp" and not args and self.ty(recv) == "Rhs":
+                return f"(← Rhs.timestamp {self.atom(recv)})"
             if f.attr == "timestamp" and not args:
                 return f"(timestamp {self.atom(recv)})"
+            if f.attr == "is_hashable" and not args and isinstance(recv, ast.Name) and self.env.get(recv.id) == "SimpleQuery":
+                return f"{recv.id}.hashable"
+            if f.attr == "fromtimestamp" and isinstance(recv, ast.Name) and recv.id == "datetime" and len(args) == 2 \
+                    and isinstance(args[1], ast.Attribute) and args[1].attr == "utc":
+                return f"(fromtimestamp {self.atom(args[0])})"
             if _is_self_attr(recv) and recv.attr == "_storage" and f.attr in ("_deserialize_measurement", "_deserialize_storage_item") \
                     and len(args) == 1:
                 return f"(Storage.{f.attr} self._storage {self.atom(args[0])})"
@@ -478,7 +569,7 @@ class Fn:
                 return f"(← ext.index_search self._index {self.atom(args[0])})"
             if isinstance(recv, ast.Name) and self.env.get(recv.id) == "SimpleQuery" and f.attr == "_test" and len(args) == 1:
                 return f"(← {recv.id}._test {self.atom(args[0])})"
-            if _is_self_attr(f) and f.attr in self.cls.readers:
+            if _is_self_attr(f) and (f.attr in self.cls.readers or f.attr == self.fn.name):
                 return f"(← {f.attr} self {' '.join(self.atom(a) for a in args)})"
         raise Unsupported("call " + ast.dump(e))
 
@@ -608,8 +699,12 @@ class Fn:
                 val = self.ex(s.value)
                 if ty is None and val == "[]":
                     ty = self.local_type(target.id, rest)
-                line = f"{ind}let {target.id}{' : ' + ty if ty else ''} := {val}\n"
+                line = f"{ind}let {nm(target.id)}{' : ' + ty if ty else ''} := {val}\n"
                 return line + self.block(rest, k, ind, defined | {target.id})
+            if (isinstance(target, ast.Attribute) and isinstance(target.value, ast.Name) and self.env.get(target.value.id) == "IndexResult"
+                    and target.attr == "_items"):
+                x = target.value.id
+                return f"{ind}let {x} := {{ {x} with _items := {self.ex(s.value)} }}\n" + self.block(rest, k, ind, defined)
             if _is_self_attr(target):
                 if target.attr not in self.cls.attrs:
                     raise Unsupported("new attribute self." + target.attr)
@@ -632,7 +727,7 @@ class Fn:
             else:
                 raise Unsupported("augmented assignment")
             if isinstance(s.target, ast.Name):
-                return f"{ind}let {s.target.id} := {new(s.target.id)}\n" + self.block(rest, k, ind, defined)
+                return f"{ind}let {nm(s.target.id)} := {new(nm(s.target.id))}\n" + self.block(rest, k, ind, defined)
             if _is_self_attr(s.target):
                 a = s.target.attr
                 return f"{ind}let self := {{ self with {a} := {new('self.' + a)} }}\n" + self.block(rest, k, ind, defined)
@@ -709,6 +804,66 @@ class Fn:
             return (f"{ind}match {call.func.value.id}._path_resolver {arg} with\n"
                     f"{ind}| .error _ => do\n{self.block(s.handlers[0].body, k, i2, defined)}"
                     f"{ind}| .ok {x} => do\n{self.block(rest, k, i2, defined | {x})}")
+        if (isinstance(s, ast.If) and isinstance(s.test, ast.Compare) and len(s.test.ops) == 1 and isinstance(s.test.ops[0], ast.Is)
+                and isinstance(s.test.left, ast.Name) and isinstance(s.test.comparators[0], ast.Constant)
+                and s.test.comparators[0].value is None and exits(s.body) and not s.orelse):
+            # `if x is None: return …` — afterwards x is the value itself
+            x = s.test.left.id
+            t = self.env.get(x)
+            if not (isinstance(t, tuple) and t[0] == "Option"):
+                raise Unsupported(f"`{x} is None` on a value that is not known to be optional")
+            i2 = ind + "  "
+            none_branch = self.block(s.body, k, i2, defined)
+            saved_t = self.env.get(x)
+            self.env[x] = t[1]
+            some_branch = self.block(rest, k, i2, defined)
+            self.env[x] = saved_t
+            return f"{ind}match {nm(x)} with\n{ind}| none => do\n{none_branch}{ind}| some {nm(x)} => do\n{some_branch}"
+        if (isinstance(s, ast.If) and not s.orelse and isinstance(s.test, ast.Call) and isinstance(s.test.func, ast.Name)
+                and s.test.func.id == "isinstance" and isinstance(s.test.args[0], ast.Name)
+                and self.env.get(s.test.args[0].id) == "QueryObj" and isinstance(s.test.args[1], ast.Name)
+                and s.test.args[1].id in ("CompoundQuery", "SimpleQuery")):
+            # `if isinstance(query, CompoundQuery):` / `SimpleQuery`: a match on the object's class, its attributes unpacked
+            q = s.test.args[0].id
+            i2 = ind + "  "
+            if s.test.args[1].id == "CompoundQuery":
+                self.unpacked.add(q)
+                body = self.block(list(s.body) + rest, k, i2, defined)
+                self.unpacked.discard(q)
+                other = self.block(rest, k, i2, defined)
+                return (f"{ind}match {nm(q)} with\n{ind}| .compound operator_ query1 query2 => do\n{body}"
+                        f"{ind}| _ => do\n{other}")
+            saved_t = self.env[q]
+            other = self.block(rest, k, i2, defined)
+            self.env[q] = "SimpleQuery"
+            body = self.block(list(s.body) + rest, k, i2, defined)
+            self.env[q] = saved_t
+            return f"{ind}match {nm(q)} with\n{ind}| .simple {nm(q)} => do\n{body}{ind}| _ => do\n{other}"
+        if isinstance(s, ast.While):
+            # while n < len(xs): <body>; n += 1      — a bounded scan: n runs over range(n, len(xs)); `break` leaves it
+            t = s.test
+            ok = (isinstance(t, ast.Compare) and len(t.ops) == 1 and isinstance(t.ops[0], ast.Lt) and isinstance(t.left, ast.Name)
+                  and isinstance(t.comparators[0], ast.Call) and isinstance(t.comparators[0].func, ast.Name)
+                  and t.comparators[0].func.id == "len" and not s.orelse and s.body
+                  and isinstance(s.body[-1], ast.AugAssign) and isinstance(s.body[-1].op, ast.Add)
+                  and isinstance(s.body[-1].target, ast.Name) and s.body[-1].target.id == t.left.id
+                  and isinstance(s.body[-1].value, ast.Constant) and s.body[-1].value.value == 1)
+            n = t.left.id if ok else None
+            inner = s.body[:-1] if ok else []
+            if ok:
+                for x in inner:
+                    for y in ast.walk(x):
+                        if isinstance(y, ast.Continue) or (isinstance(y, (ast.Assign, ast.AugAssign)) and any(
+                                isinstance(z, ast.Name) and z.id == n for z in ([y.target] if isinstance(y, ast.AugAssign) else y.targets))):
+                            ok = False
+                if any(isinstance(y, ast.Name) and y.id == n for st in rest for y in ast.walk(st)):
+                    ok = False          # the counter's final value is not reconstructed
+            if not ok:
+                raise Unsupported("while loop " + ast.dump(s.test)[:120])
+            bound = self.atom(t.comparators[0].args[0])
+            loop = ast.For(target=ast.Name(id=n, ctx=ast.Store()), iter=ast.Name(id="__range__", ctx=ast.Load()), body=inner, orelse=[])
+            self.range_iter = f"(List.range' {nm(n)} ((len {bound}) - {nm(n)}))"
+            return self.block([loop] + rest, k, ind, defined)
         if isinstance(s, ast.If) and isinstance(s.test, ast.Name) and s.test.id in self.known:
             # the truth value of this local is known on this path (see below)
             return self.block(list(s.body if self.known[s.test.id] else s.orelse) + rest, k, ind, defined)
@@ -728,13 +883,13 @@ class Fn:
             if may_exit(s.body) or may_exit(s.orelse):
                 # a branch that leaves the iteration / the function on some path only: what follows the `if` is continued
                 # inside both branches
-                nm = s.test.id if isinstance(s.test, ast.Name) and s.test.id not in self.reassigned else None
+                flag = s.test.id if isinstance(s.test, ast.Name) and s.test.id not in self.reassigned else None
                 saved = dict(self.known)
-                if nm:
-                    self.known[nm] = True     # a later `if flag:` on this path is decided statically
+                if flag:
+                    self.known[flag] = True     # a later `if flag:` on this path is decided statically
                 tb = self.block(list(s.body) + rest, k, i2, defined)
-                if nm:
-                    self.known[nm] = False
+                if flag:
+                    self.known[flag] = False
                 te = self.block(list(s.orelse) + rest, k, i2, defined)
                 self.known = saved
                 return f"{ind}if {c} then do\n{tb}{ind}else do\n{te}"
@@ -750,11 +905,11 @@ class Fn:
             if fresh and isinstance(s.test, ast.Name) and s.test.id in defined and s.test.id not in self.reassigned:
                 # `if flag:` binds names that later code uses under the same flag: continue both branches separately, each
                 # knowing the flag (a later `if flag:` is then decided statically)
-                nm = s.test.id
+                flag = s.test.id
                 saved = dict(self.known)
-                self.known[nm] = True
+                self.known[flag] = True
                 tb = self.block(list(s.body) + rest, k, i2, defined)
-                self.known[nm] = False
+                self.known[flag] = False
                 te = self.block(list(s.orelse) + rest, k, i2, defined)
                 self.known = saved
                 return f"{ind}if {c} then do\n{tb}{ind}else do\n{te}"
@@ -819,12 +974,16 @@ class Fn:
         for p in a.args[1:]:
             if p.annotation is None:
                 raise Unsupported(f"{fn.name}: parameter {p.arg} is not annotated")
-            params.append((p.arg, lean_type(p.annotation)))
-            self.env[p.arg] = parse_type(p.annotation)
+            ann = p.annotation
+            if self.cls.node.name == "Index" and ast.unparse(ann) in ("Optional[Query]", "Query"):
+                ann = ast.Name(id="QueryObj", ctx=ast.Load())     # a query object whose class the method dispatches on
+            params.append((p.arg, lean_type(ann)))
+            self.env[p.arg] = parse_type(ann)
         self.mutator = fn.name in self.cls.mutators
         self.mutval = fn.name in self.cls.mutvals
         self.loop_k = None
         self.break_k = None
+        self.unpacked = set()
         self.after = []
         self.known = {}
         counts = {}
@@ -887,7 +1046,7 @@ INDEX_METHODS = [
     "_update_fields", "_update_timestamps", "_update_measurements", "_update_tags", "update",
     "build",
     "get_field_keys", "get_field_values", "get_measurements", "get_tag_keys", "get_tag_values", "get_timestamps",
-    "_search_fields", "_search_measurement", "_search_tags",
+    "_search_fields", "_search_measurement", "_search_tags", "_search_timestamps", "_search_helper", "search",
     "valid", "__len__",
 ]
 
@@ -904,6 +1063,7 @@ def generate_index(src: str) -> str:
     out = [
         "import TinyFlux.Py.Typed",
         "import TinyFlux.Spec.Basic",
+        "import TinyFlux.Generated.Utils",
         "/-! GENERATED by tools/py2lean (class mode) from tinyflux/index.py — do not edit. -/",
         "set_option linter.unusedVariables false",
         "namespace TinyFlux.Generated.IndexImpl",
@@ -932,6 +1092,17 @@ def generate_index(src: str) -> str:
         raise Unsupported("Index.__init__ does not assign exactly the annotated attributes")
     ps = " ".join(f"({p.arg} : {lean_type(p.annotation)})" for p in init.args.args[1:])
     out.append(f"def __init__ {ps} : Self :=\n  {{ " + ", ".join(fields) + " }\n")
+    # the set algebra of `IndexResult` (its two attributes are the record `IndexResult` of Py/Typed.lean)
+    rnode = next((n for n in mod.body if isinstance(n, ast.ClassDef) and n.name == "IndexResult"), None)
+    if rnode is None:
+        raise Unsupported("class IndexResult not found")
+    rcls = Cls(rnode, ["__invert__", "__and__", "__or__"])
+    if rcls.attrs != {"_items": "(List Nat)", "_index_count": "Nat"}:
+        raise Unsupported(f"attributes of IndexResult: {rcls.attrs}")
+    out.append("namespace IndexResultImpl\nabbrev Self := IndexResult\n")
+    for name in ["__invert__", "__and__", "__or__"]:
+        out.append(Fn(rcls, rcls.methods[name]).translate())
+    out.append("end IndexResultImpl\n")
     for name in INDEX_METHODS:
         out.append(Fn(cls, cls.methods[name]).translate())
     out.append("end TinyFlux.Generated.IndexImpl")
